@@ -260,6 +260,17 @@ fn re_alt_groups(_w: &mut ZA, a: String, b: String, c: String) {
     rec("re_alt_groups", format!("{a:?},{b:?},{c:?}"));
 }
 
+// user-written named groups whose names share a prefix up to an underscore
+#[given(regex = r"^range (?P<x_min>\d+)\.\.(?P<x_max>\d+) of (?P<x_unit>\w+)$")]
+fn re_named_prefix_typed(_w: &mut ZA, lo: u32, hi: u32, unit: String) {
+    rec("re_named_prefix_typed", format!("{lo:?},{hi:?},{unit:?}"));
+}
+
+#[when(regex = r"^user (?P<user_name>\w+) id (?P<user_id>\d+)$")]
+fn re_named_prefix_slice(_w: &mut ZA, xs: &[String]) {
+    rec("re_named_prefix_slice", format!("{xs:?}"));
+}
+
 // ---- second world ---------------------------------------------------------
 #[given("a literal step")]
 fn b_lit(_w: &mut ZB) {
@@ -355,6 +366,8 @@ fn defs() -> Vec<Def> {
         } },
         Def { world: 'A', kw: Then, id: "ex_multi_slice", how: Expr("{string} likes {string} and {word}", r#"^(?:"([^"\\]*(?:\\.[^"\\]*)*)"|'([^'\\]*(?:\\.[^'\\]*)*)') likes (?:"([^"\\]*(?:\\.[^"\\]*)*)"|'([^'\\]*(?:\\.[^'\\]*)*)') and ([^\s]+)$"#), expect: |g, _| Ok(format!("{:?}", vec![first_nonempty(&[&g[0], &g[1]]).to_owned(), first_nonempty(&[&g[2], &g[3]]).to_owned(), g[4].clone()])) },
         Def { world: 'A', kw: Then, id: "re_alt_groups", how: Re(r"^(?:a(\d)|b(\d)) then (\w+)$"), expect: |g, _| Ok(format!("{:?},{:?},{:?}", g[0], g[1], g[2])) },
+        Def { world: 'A', kw: Given, id: "re_named_prefix_typed", how: Re(r"^range (?P<x_min>\d+)\.\.(?P<x_max>\d+) of (?P<x_unit>\w+)$"), expect: |g, _| match (g[0].parse::<u32>(), g[1].parse::<u32>()) { (Ok(a), Ok(b)) => Ok(format!("{a:?},{b:?},{:?}", g[2])), _ => Err("can not be parsed".into()) } },
+        Def { world: 'A', kw: When, id: "re_named_prefix_slice", how: Re(r"^user (?P<user_name>\w+) id (?P<user_id>\d+)$"), expect: |g, _| Ok(format!("{g:?}")) },
         Def { world: 'B', kw: Given, id: "b_lit", how: Literal("a literal step"), expect: none },
         Def { world: 'B', kw: When, id: "b_re", how: Re(r"^only b (\d+)$"), expect: |g, _| g[0].parse::<u16>().map(|n| format!("{n:?}")).map_err(|_| "can not be parsed".into()) },
         Def { world: 'B', kw: Then, id: "b_re", how: Re(r"^only b (\d+)$"), expect: |g, _| g[0].parse::<u16>().map(|n| format!("{n:?}")).map_err(|_| "can not be parsed".into()) },
@@ -397,6 +410,8 @@ const CORPUS: &[&str] = &[
     "5 pcs of apples for 3", "few of pears for -2", "many of x for y", "5 of apples for 3",
     "\"x\" likes 'y' and few", "'x' likes \"y\" and 7", "\"x\" likes y and none",
     "a1 then go", "b2 then stop", "c3 then no",
+    // named groups sharing a name prefix
+    "range 3..9 of cm", "range 3..x of cm", "user bob id 7", "user bob id x",
     // second world
     "only b 7", "only b 70000", "only b x",
     "",
